@@ -31,7 +31,14 @@ def observe(text: str, passes: int = 1) -> Observation:
     from nix_manipulator import parse
     from nix_manipulator.exceptions import NixSyntaxError
 
+    from nmverif.worker import quarantined, wal_text
+
     ob = Observation(text=text)
+    if quarantined(text):
+        ob.exc_type = "InterpreterDeath"
+        ob.exc_msg = "input killed the interpreter in an earlier attempt (quarantined)"
+        return ob
+    wal_text(text)
     try:
         doc = parse(text)
         ob.passthrough = bool(doc.contains_error)
@@ -252,6 +259,39 @@ def _leaf_at(rd: cst.Reading, offset: int):
     return prev, None, None
 
 
+_CONTAINERS = {"attrset_expression", "rec_attrset_expression", "list_expression", "formals"}
+
+
+def _has_inline_multiline_container(text: str) -> str:
+    """Does the text hold a set / list / formals laid out inline (first element on the
+    opener's line) that nevertheless spans several lines?"""
+    root = cst.parse_bytes(cst.to_bytes(text)).root_node
+    stack = [root]
+    while stack:
+        node = stack.pop()
+        if node.child_count == 0:
+            continue
+        kids = node.children
+        if node.type in _CONTAINERS and node.end_point[0] > node.start_point[0]:
+            opener = next((k for k in kids if k.type in ("{", "[")), None)
+            first = None
+            seen = False
+            for k in kids:
+                if k is opener or (opener is not None and k.start_byte == opener.start_byte):
+                    seen = True
+                    continue
+                if seen and k.type not in ("}", "]"):
+                    first = k
+                    break
+            if first is not None and first.type == "binding_set" and first.child_count:
+                first = first.children[0]
+            if opener is not None and first is not None \
+                    and first.start_point[0] == opener.end_point[0]:
+                return "yes"
+        stack.extend(kids)
+    return "no"
+
+
 def judge_stability(ob: Observation) -> list[dict]:
     """C06: first-pass output is a fixed point."""
     ws: list[dict] = []
@@ -276,6 +316,7 @@ def judge_stability(ob: Observation) -> list[dict]:
                  and prev.end == nxt.start)
     key = {
         "effect": "unstable",
+        "inline_multiline_container": _has_inline_multiline_container(ob.out),
         "inside_kind": inside_kind,
         "glued_comment": "yes" if glued else "no",
         "prev": prev.type if prev is not None else "",
@@ -291,8 +332,8 @@ def judge_spacing(rout: cst.Reading) -> list[dict]:
     ws = []
     seen = set()
     for h in spacing.scan(rout):
-        key = {"effect": "spacing", "rule": h["rule"], "prev": h["prev"], "next": h["next"],
-               "parent": h["parent"], "prev_parent": h["prev_parent"], "ckind": h["ckind"]}
+        key = {"effect": "spacing", "rule": h["rule"], "lca": h["lca"], "prev": h["prev"],
+               "next": h["next"], "ckind": h["ckind"]}
         t = tuple(sorted(key.items()))
         if t in seen:
             continue
